@@ -93,7 +93,12 @@ class DOb(Obligation):
             def body():
                 D.reset()
                 out = self.call(I)
-                cl = list(self.claims(I, out))
+                try:
+                    cl = list(self.claims(I, out))
+                except EngineError:
+                    raise
+                except Exception as e:  # an error in the contract itself is a checker problem, never a verdict on /repo
+                    raise EngineError(f"contract/spec evaluation failed: {type(e).__name__}: {e}")
                 return out, cl, list(D.DEFS), list(D.DOMAIN)
 
             paths = explore(body, pre, max_paths=self.max_paths)
